@@ -124,6 +124,20 @@ Theorem C02_env_reaches_keys : prefilter_ok the_env_prefilter the_spec = true.
 Proof. exact the_prefilter_ok. Qed.
 Print Assumptions C02_env_reaches_keys.
 
+(* "the ordered list of hashed arguments": generate_hash_key builds the hashed argument list as a plain concatenation
+   of the parsed request's lists (the_flow_c, translated), so two requests that differ only in the ORDER or the
+   MULTIPLICITY of their -arch arguments have different pre-images. *)
+Theorem C02_arch_list_covered :
+  forall (H : bytes -> bytes) (r : creq) (p1 p2 : parsed),
+    pa_common p1 = pa_common p2 -> pa_profile p1 = pa_profile p2 ->
+    wf_c the_spec (set_args r (hashed_args the_flow_c p1)) = true ->
+    wf_c the_spec (set_args r (hashed_args the_flow_c p2)) = true ->
+    encode_c H the_spec (set_args r (hashed_args the_flow_c p1))
+    = encode_c H the_spec (set_args r (hashed_args the_flow_c p2)) ->
+    pa_arch p1 = pa_arch p2.
+Proof. exact (fun H r p1 p2 => arch_list_covered_c H the_spec the_flow_c r p1 p2 the_spec_good the_flow_c_ok). Qed.
+Print Assumptions C02_arch_list_covered.
+
 (* BLAKE3's collision-freeness is a hypothesis on exactly the two encodings compared. *)
 Theorem C02_key_iff :
   forall (H : bytes -> bytes) (r1 r2 : creq),
@@ -184,6 +198,20 @@ Theorem C02_pp_single_change :
     encode_pp H the_spec r1 <> encode_pp H the_spec r2.
 Proof. exact (fun H Hh r1 r2 => single_change_p H Hh the_spec r1 r2 the_spec_good). Qed.
 Print Assumptions C02_pp_single_change.
+
+Theorem C02_pp_arch_list_covered :
+  forall (H : bytes -> bytes), (forall x, is_hex64 (H x) = true) ->
+  forall (r : creq) (p1 p2 : parsed),
+    pa_pre p1 = pa_pre p2 -> pa_common p1 = pa_common p2 -> pa_profile p1 = pa_profile p2 -> pa_cwd p1 = pa_cwd p2 ->
+    wf_p the_spec (set_args r (hashed_args the_flow_p p1)) = true ->
+    wf_p the_spec (set_args r (hashed_args the_flow_p p2)) = true ->
+    encode_pp H the_spec (set_args r (hashed_args the_flow_p p1))
+    = encode_pp H the_spec (set_args r (hashed_args the_flow_p p2)) ->
+    pa_arch p1 = pa_arch p2.
+Proof.
+  exact (fun H Hh r p1 p2 => arch_list_covered_p H Hh the_spec the_flow_p r p1 p2 the_spec_good the_flow_p_ok).
+Qed.
+Print Assumptions C02_pp_arch_list_covered.
 
 Theorem C02_pp_boundary_shift :
   forall (H : bytes -> bytes), (forall x, is_hex64 (H x) = true) ->
@@ -323,6 +351,11 @@ Print Assumptions C02_old_env_cover_refuted.
 (* ------------------------------------------------------------------ non-vacuity *)
 Example C02_ex_wf : wf_c the_spec ex_req = true /\ wf_p the_spec ex_req = true /\ extra_pp_ok ex_req ex_req = true.
 Proof. vm_compute; repeat split; reflexivity. Qed.
+Example C02_ex_arch_order :
+  let p1 := {| pa_pre := []; pa_arch := [[45; 97]; [120]; [45; 97]; [121]]; pa_common := [[45; 79]]; pa_profile := None; pa_cwd := None |} in
+  let p2 := {| pa_pre := []; pa_arch := [[45; 97]; [121]; [45; 97]; [120]]; pa_common := [[45; 79]]; pa_profile := None; pa_cwd := None |} in
+  hashed_args the_flow_c p1 <> hashed_args the_flow_c p2 /\ wf_c the_spec (set_args ex_req (hashed_args the_flow_c p1)) = true.
+Proof. vm_compute. split; [intro E; discriminate E | reflexivity]. Qed.
 Example C02_ex_drivers :
   driver_pp the_drivers [97; 112; 112; 108; 101; 45; 99; 108; 97; 110; 103; 43; 43] = Some true     (* apple-clang++ *)
   /\ driver_pp the_drivers [97; 112; 112; 108; 101; 45; 99; 108; 97; 110; 103] = Some false.        (* apple-clang *)
